@@ -146,16 +146,28 @@ let run (path : string) : unit =
            let l = advance lineno s (!off + i) obs.(i) !flog !off in
            !labels.(i) <- l
          | _ -> ());
-        (* threads that moved without being released: waiters that were woken *)
-        for _ = 1 to 4 do
-          for j = 0 to n - 1 do
-            if !labels.(j) <> obs.(j) && (!labels.(j) = "B" || !labels.(j) = "C") then begin
-              let l = advance lineno s (!off + j) obs.(j) !flog !off in
-              !labels.(j) <- l;
-              if l = obs.(j) then count "woken_waiters"
-            end
-          done
-        done;
+        (* threads that moved without being released: waiters that were woken.  Two waiters of one lock are
+           served in an order the observation does not name: try the orders until one reproduces it. *)
+        let woken = List.filter (fun j -> !labels.(j) <> obs.(j) && (!labels.(j) = "B" || !labels.(j) = "C")) (List.init n (fun j -> j)) in
+        let rec perms l = match l with
+          | [] -> [[]]
+          | _ -> List.concat_map (fun x -> List.map (fun r -> x :: r) (perms (List.filter (fun y -> y <> x) l))) l in
+        let orders = if List.length woken <= 4 then perms woken else [woken; List.rev woken] in
+        let s0 = !s and l0 = Array.copy !labels in
+        let attempt order =
+          s := s0; labels := Array.copy l0;
+          for _ = 1 to 2 do
+            List.iter (fun j ->
+                if !labels.(j) <> obs.(j) then !labels.(j) <- advance lineno s (!off + j) obs.(j) !flog !off) order
+          done;
+          List.for_all (fun j -> !labels.(j) = obs.(j)) order in
+        let saved_mis = !mismatches in
+        if woken <> [] then begin
+          if List.exists attempt orders then countn "woken_waiters" (List.length woken)
+          else ignore (attempt woken);
+          (* mismatches printed by abandoned attempts (none: advance reports only function bindings) *)
+          ignore saved_mis
+        end;
         let bad = ref false in
         for j = 0 to n - 1 do
           if !labels.(j) <> obs.(j) then begin
